@@ -262,6 +262,7 @@ def r6(idx, rep):
             bad = bad or f"outer comment {c!r}: metadata {got!r} ({ps[0].result[0]}), documented {want!r}"
     rep.check(bad is None, "R6", f"{fc.file}::MetadataParser.collect_metadata corpus", bad or f"{len(COMMENTS) + len(COMMENTS_PARTIAL)} comments", K.where(fc, fc.node))
     metadata_merge(idx, rep, "R6")
+    result_keeps_metadata(idx, rep, "R6")
     bad = None
     for c, want in OUTER:
         it = Interp(idx, types={"self": "MetadataParser"}, unknown_calls="residual")
@@ -321,3 +322,20 @@ def r7(idx, rep):
                 rm = ps[0].final_store.get("remove")
             bad = bad or f"print-mode {pm!r} with printers {printers}: printers become {got}, documented {want}"
     rep.check(bad is None, "R7", f"{fi.file}::PrintMode.update_printers table", bad or "", K.where(fi, fi.node))
+
+
+def result_keeps_metadata(idx, rep, rid):
+    """building the member's Result must not rewrite what the comment said: the run index becomes the NAME only for a csvpath that has no
+    identity of its own.  Result.__init__ with the real CsvPath.identity, over metadata {} / {'NAME': 'FOURTH'} / {'id': 'x'}"""
+    fi = idx.method("Result", "__init__")
+    rep.analysed(fi, idx.method("CsvPath", "identity"))
+    bad = None
+    for md, want in (({}, {"NAME": "7"}), ({"NAME": "FOURTH"}, {"NAME": "FOURTH"}), ({"id": "x"}, {"id": "x"}), ({"description": "d"}, {"description": "d", "NAME": "7"})):
+        it = Interp(idx, types={"self": "Result", "cp": "CsvPath"}, inline={"CsvPath.identity", "Result.csvpath"}, unknown_calls="residual")
+        ps = it.run_all(fi, args={"csvpath": Obj("cp"), "file_name": "f", "paths_name": "p", "run_index": 7, "run_time": "T", "run_dir": "D", "lines": None},
+                        store={"cp.metadata": dict(md), "cp._metadata": dict(md)})
+        for p in ps:
+            got = p.final_store.get("cp.metadata")
+            if p.result[0] != "return" or got != want:
+                bad = bad or f"csvpath metadata {md} before its Result is built: {got} afterwards ({p.result[0]}), documented {want} (the run index names only a csvpath without an identity)"
+    rep.check(bad is None, rid, f"{fi.file}::Result.__init__ leaves the comment's metadata alone", bad or "", K.where(fi, fi.node))
